@@ -181,7 +181,7 @@ class Ctx:
         self.refused += out.refused
         self.excluded.update(out.excluded)
         self.notes.update(out.notes)
-        if out.nontrivial and len(self.samples) < 3:
+        if out.nontrivial and len(self.samples) < 3 and self.cases >= (1, 25, 60)[len(self.samples)]:
             desc = getattr(self.mod, "describe", None)
             self.samples.append(out.sample if out.sample is not None else (desc(case) if desc else _trunc(case)))
         if out.violations:
